@@ -146,7 +146,7 @@ class Conv:
         ints.append(len(self.caps))
         ints += [c for c, _ in self.caps]
         bs += [bytes(v) for _, v in self.caps]
-        return Case(60, ints, bs, self.tag)
+        return Case(getattr(self, "model_op", 60), ints, bs, self.tag)
 
 
 class Multi:
@@ -269,7 +269,8 @@ def parse_model_tokens(line):
     pre = timers if est_at is None else timers[:est_at]
     return {"wire": wire, "cbs": cbs, "closed": closed, "rets": rets,
             "hold_arms": [ns for k, ns in timers if k == "hold" and ns >= 0],
-            "ka_arms_pre": [ns for k, ns in pre if k == "ka" and ns >= 0]}
+            "ka_arms_pre": [ns for k, ns in pre if k == "ka" and ns >= 0],
+            "ka_arms": [ns for k, ns in timers if k == "ka" and ns >= 0]}
 
 
 def ip_to_int(s):
